@@ -397,7 +397,9 @@ class ParamFlow(Contract):
             return SymObj('AnnoStub10', source='GENCODE', transcripts={})
         reg.method_('IndexDirStub', 'save_annotation', save_annotation)
         reg.method_('IndexDirStub', 'load_annotation', lambda I, o, a, k: SymObj('AnnoStub10', source='GENCODE', transcripts={}))
-        reg.method_('AnnoStub10', 'check_protein_coding', lambda I, o, a, k: None)
+        def check_pc(I, o, a, k):
+            c._cur.calls.append(('check_protein_coding', list(a), dict(k)))
+        reg.method_('AnnoStub10', 'check_protein_coding', check_pc)
         reg.method_('AnnoStub10', 'generate_index', lambda I, o, a, k: None)
         reg.ctor_('GenomicAnnotationOnDisk', lambda I, a, k: SymObj('AnnoStub10', source='GENCODE', transcripts={}))
 
@@ -524,6 +526,18 @@ class LoadReferencesFlow(ParamFlow):
             I.e.prove('C12/load_references/validated-before-any-load',
                       st.calls and st.calls[0][0] == 'validate_metadata')
         I.e.prove('C10/O6/load_references/returns-the-pool', isinstance(ret[3], SymObj) and ret[3].cls == 'Pool')
+        # the coding status of the annotation is (re)computed against the loaded proteome with the caller's
+        # invalid_protein_as_noncoding: with raw files whenever a proteome is read, with an index only when asked
+        ipan = st.kwargs['invalid_protein_as_noncoding']
+        cpcs = [x for x in st.calls if x[0] == 'check_protein_coding']
+        ok = all(len(x[1]) == 2 and not x[2] and isinstance(x[1][0], SymObj) and x[1][0].cls == 'ProteomeStub' for x in cpcs) and len(cpcs) <= 1
+        I.e.prove('C06/load_references/coding-status-checked-against-the-loaded-proteome-at-most-once', ok)
+        if ok and cpcs:
+            flag = cpcs[0][1][1]
+            I.e.prove('C06/load_references/invalid-protein-as-noncoding-reaches-the-check-unchanged',
+                      as_bool(I.truth(flag)) == ipan if not isinstance(flag, bool) else z3.BoolVal(flag) == ipan)
+        elif ok:
+            I.e.prove('C06/load_references/no-check-only-from-an-index-without-the-flag', z3.And(st.use_index, z3.Not(ipan)))
 
     def post_raise(self, I, st, exc):
         I.e.prove('C10/O6/load_references/no-raise-expected-with-proteome-given', False)
@@ -730,7 +744,7 @@ class ProtSeq:
 
 @register
 class UniquePeptidePool(Contract):
-    path, qualname, props = AAD, 'AminoAcidSeqDict.create_unique_peptide_pool', ('C10',)
+    path, qualname, props = AAD, 'AminoAcidSeqDict.create_unique_peptide_pool', ('C10', 'C04')
     assumptions = ('modular: AminoAcidSeqRecord.enzymatic_cleave is used through a stub (its result is compared with the digest spec by the bounded check `digest`)',
                    'assumed: iter(self.values()) / next(it, None) enumerate the proteome entries once, in order')
 
